@@ -52,6 +52,8 @@ def _scalar_shapes(case):
                     return True
                 if nd[0] == "fn" and nd[2] and all(_no_col(a) for a in nd[2]):
                     return True
+                if nd[0] == "fn" and nd[1] in ("fill_null", "coalesce", "hmax", "hmin", "hsum", "hany", "hall") and nd[2] and _no_col(nd[2][0]):
+                    return True  # the literal first argument decides the length of the result
                 if nd[0] == "fn" and nd[1] == "is_in" and len(nd[2]) == 1:
                     return True
     return False
